@@ -210,6 +210,16 @@ pub struct Incoming<'a> {
 	events: Vec<String>,
 }
 
+extern "C" {
+	fn _exit(code: i32) -> !;
+}
+
+fn quick_exit(code: i32) -> ! {
+	use std::io::Write;
+	let _ = std::io::stderr().flush();
+	unsafe { _exit(code) }
+}
+
 fn splitmix(x: &mut u64) -> u64 {
 	*x = x.wrapping_add(0x9E37_79B9_7F4A_7C15);
 	let mut z = *x;
@@ -248,14 +258,16 @@ impl<'a> Incoming<'a> {
 	fn finish(&mut self, verdict: Value) -> ! {
 		let out = json!({ "verdict": verdict, "events": self.events });
 		let _ = std::fs::write(&self.l.result_path, serde_json::to_string(&out).unwrap());
-		// exit without unwinding the parked handler threads
-		std::process::exit(0);
+		// exit without unwinding the parked handler threads, and without running exit handlers:
+		// OpenSSL's atexit clean-up racing with a handler thread that is just finishing its
+		// SSL_free segfaulted once in about 20 000 runs (seen in the thorough tier)
+		quick_exit(0);
 	}
 
 	fn harness_error(&mut self, msg: &str) -> ! {
 		let out = json!({ "harness_error": msg, "events": self.events });
 		let _ = std::fs::write(&self.l.result_path, serde_json::to_string(&out).unwrap());
-		std::process::exit(2);
+		quick_exit(2);
 	}
 
 	/// wait until the handler of `conn` has parked in read() or dropped its stream
